@@ -21,6 +21,7 @@ import (
 	"net"
 	"os"
 	"sync"
+	"sync/atomic"
 	"time"
 
 	piondtls "github.com/pion/dtls/v3"
@@ -40,6 +41,7 @@ import (
 	udpserver "github.com/plgd-dev/go-coap/v3/udp/server"
 
 	"verifharness/internal/conns"
+	"verifharness/internal/hooks"
 	"verifharness/internal/memnet"
 	"verifharness/internal/rec"
 )
@@ -630,6 +632,94 @@ func runDiscovery(seed int64) DiscTrace {
 	return tr
 }
 
+// StuckTrace: peer A keeps a handler of the udp server busy and fills its connection's receive queue (the server's one
+// read loop is then parked handing A's next datagram over); A's server-side connection is closed; from then on the
+// server must serve peer B again ("the closure of one peer never changes what other peers receive", "never deadlocks").
+type StuckTrace struct {
+	Op        string `json:"op"` // stuck
+	QSize     int    `json:"qsize"`
+	Busy      bool   `json:"busy"`      // A's handler was entered (steering succeeded)
+	BBefore   bool   `json:"bBefore"`   // B was served before A got stuck (sanity)
+	AnsweredB bool   `json:"answeredB"` // B was served after A's connection was closed
+	Stopped   bool   `json:"stopped"`   // Serve returned after Stop
+}
+
+func runStuck(qsize int) StuckTrace {
+	tr := StuckTrace{Op: "stuck", QSize: qsize}
+	l, err := coapNet.NewListenUDP("udp4", "127.0.0.1:0")
+	if err != nil {
+		rec.Die("listen udp: %v", err)
+	}
+	release := make(chan struct{})
+	var entered atomic.Int64
+	var mu sync.Mutex
+	connOf := map[string]*udpclient.Conn{}
+	sv := udp.NewServer(options.WithReceivedMessageQueueSize(qsize), options.WithErrors(func(error) {}),
+		options.WithOnNewConn(func(cc *udpclient.Conn) { mu.Lock(); connOf[cc.RemoteAddr().String()] = cc; mu.Unlock() }),
+		options.WithHandlerFunc(func(w *responsewriter.ResponseWriter[*udpclient.Conn], r *pool.Message) {
+			if p, _ := r.Path(); p == "/hang" {
+				entered.Add(1)
+				<-release
+				return
+			}
+			_ = w.SetResponse(codes.Content, message.TextPlain, bytes.NewReader([]byte("ok")))
+		}))
+	served := make(chan error, 1)
+	go func() { served <- sv.Serve(l) }()
+	defer func() { _ = l.Close() }()
+	saddr, _ := net.ResolveUDPAddr("udp4", l.LocalAddr().String())
+	dial := func() *net.UDPConn {
+		c, err := net.DialUDP("udp4", nil, saddr)
+		if err != nil {
+			rec.Die("dial: %v", err)
+		}
+		return c
+	}
+	A, B := dial(), dial()
+	defer A.Close()
+	defer B.Close()
+	askB := func(n int) bool {
+		tok := []byte{0xB0, byte(n)}
+		_, _ = B.Write(memnet.Build(message.Confirmable, int(codes.GET), int32(700+n), tok, message.Options{{ID: message.URIPath, Value: []byte("e")}}, nil))
+		buf := make([]byte, 1500)
+		deadline := time.Now().Add(1500 * time.Millisecond)
+		for {
+			_ = B.SetReadDeadline(deadline)
+			k, err := B.Read(buf)
+			if err != nil {
+				return false
+			}
+			if d, err := memnet.Parse(buf[:k]); err == nil && bytes.Equal(d.Token, tok) && d.Code == int(codes.Content) {
+				return true
+			}
+		}
+	}
+	tr.BBefore = askB(1)
+	for k := 0; k < qsize+4; k++ {
+		_, _ = A.Write(memnet.Build(message.NonConfirmable, int(codes.GET), int32(800+k), []byte{0xA0, byte(k)}, message.Options{{ID: message.URIPath, Value: []byte("hang")}}, nil))
+		time.Sleep(300 * time.Microsecond)
+	}
+	tr.Busy = hooks.WaitFor(time.Second, func() bool { return entered.Load() >= 1 })
+	time.Sleep(10 * time.Millisecond) // the queue is full, the read loop is parked
+	mu.Lock()
+	ccA := connOf[A.LocalAddr().String()]
+	mu.Unlock()
+	if ccA != nil {
+		_ = ccA.Close()
+	}
+	time.Sleep(5 * time.Millisecond)
+	tr.AnsweredB = askB(2)
+	close(release)
+	stopped := make(chan struct{})
+	go func() { sv.Stop(); close(stopped) }()
+	select {
+	case <-served:
+		tr.Stopped = true
+	case <-time.After(2 * time.Second):
+	}
+	return tr
+}
+
 // Run replays every stimulus on every transport of this tier, then the discovery scenario.
 func Run(stimPath, out string) {
 	fh, err := os.Open(stimPath)
@@ -686,5 +776,8 @@ func Run(stimPath, out string) {
 	}
 	for k := 0; k < 3; k++ {
 		wr.Put(runDiscovery(rec.Seed() + int64(k)))
+	}
+	for _, q := range []int{1, 2, 16} {
+		wr.Put(runStuck(q))
 	}
 }
